@@ -1,4 +1,5 @@
 import Driver.Common
+import GoSSE.Gen.Server
 import GoSSE.Spec.Sessions
 import GoSSE.Spec.EventStream
 import GoSSE.Spec.HttpLog
@@ -303,19 +304,23 @@ def e2e (args : List String) : String × String :=
 
 /-- `SPUB <subs> <pubs>`: `Server.Publish` through Joe — a subscriber is sent a message exactly when its topics and the
 publication's have a name in common, the publication's being the default topic `""` when none are given (C03 through
-the server's own entry point). Model and specification columns are the same list computation. -/
+the server's own entry point). The model column takes the publication's topics through `getTopics` as translated from server.go, the specification column is the plain list computation. -/
 def spub (args : List String) : String × String :=
   match args.filter (fun a => !a.startsWith "GO=") with
   | [subs, pubs] =>
     let topicsOf (s : String) : List Bytes := if s == "-" then [[]] else unhexList s
     let ps := (pubs.splitOn ";").map topicsOf
-    let one (s : String) : String :=
+    -- model column: the publication's topics through `getTopics` *as translated* from server.go (Gen/Server.lean)
+    let psG := (pubs.splitOn ";").map fun s =>
+      match Gen.getTopics 1 (if s == "-" then [] else unhexList s) with
+      | .ok l => l
+      | .error _ => []
+    let oneWith (ps : List (List Bytes)) (s : String) : String :=
       -- (`SPUBH`: a session whose `OnSession` names no topics is on the default topic)
       let st := if s == "-" then [[]] else unhexList s
       let got := (List.range ps.length).filter fun j => st.any fun a => ((ps[j]?).getD []).any fun b => a == b
       if got.isEmpty then "-" else ".".intercalate (got.map toString)
-    let r := ";".intercalate ((subs.splitOn ";").map one)
-    (r, r)
+    (";".intercalate ((subs.splitOn ";").map (oneWith psG)), ";".intercalate ((subs.splitOn ";").map (oneWith ps)))
   | _ => ("bad-args", "bad-args")
 
 def handle (op : String) (args : List String) : Option (String × String) :=
